@@ -128,7 +128,9 @@ TOKENS = ["```", "~~~", "````x", "`", "``", "**", "*", "__", "~~", "[", "](", "]
           # appended later: link / image / definition heads and escaped-backslash tails
           "[l](", "![i](", "[l](<", "\\\\", "\\\\)", "\\\\>", " \"t", "\\\"", "'t')",
           # appended later: tabs after every kind of block marker
-          "\t", "[^x]:\t", "-\t", "1.\t", ">\t", "#\t", "[x]:\t", "|\t"]
+          "\t", "[^x]:\t", "-\t", "1.\t", ">\t", "#\t", "[x]:\t", "|\t",
+          # ... and complete tab-separated openers, so that a container token in front of them fits into a two-token sequence
+          "[^x]:\ta", "[x]:\tu", "-\ta", "1.\ta", "#\ta", "  [^x]:\ta", "\t[^x]: a"]
 
 
 class Tokens(Space):
